@@ -268,7 +268,7 @@ func (e *forcedEnv) bucketDiff(a, b diskstore.DiskStore) []string {
 					case n == pointstore.POINTSBUCKETNAME && len(k) > 0 && k[len(k)-1] == 'd' && k[0] == 'n':
 						// documents are msgpack maps written in Go map order
 						if c, err := canonBytes(v); err == nil {
-							val = c
+							val = "=" + c
 						}
 					case n == shard.INTERNALBUCKETNAME && string(k) == string(shard.FREENODEIDSKEY),
 						strings.HasPrefix(n, "index/"+models.IndexTypeVectorVamana+"/") && len(k) > 0 && k[0] == 'n' && k[len(k)-1] == 'e':
@@ -276,7 +276,7 @@ func (e *forcedEnv) bucketDiff(a, b diskstore.DiskStore) []string {
 						// re-attaches to the entry node of the graph (an edge list is compared as a set)
 						ids := conversion.BytesToEdgeList(v)
 						sort.Slice(ids, func(i, j int) bool { return ids[i] < ids[j] })
-						val = fmt.Sprint(ids)
+						val = "=" + fmt.Sprint(ids)
 					}
 					m[string(k)] = val
 					return nil
@@ -297,6 +297,12 @@ func (e *forcedEnv) bucketDiff(a, b diskstore.DiskStore) []string {
 	show := func(v string, ok bool) string {
 		if !ok {
 			return "absent"
+		}
+		if strings.HasPrefix(v, "=") { // canonical rendering (document / set of node ids)
+			if len(v) > 160 {
+				return v[1:160] + "…"
+			}
+			return v[1:]
 		}
 		if len(v) > 24 {
 			return fmt.Sprintf("%d bytes %x…", len(v), v[:24])
@@ -371,8 +377,16 @@ func (e *forcedEnv) runCacheFamily(fam, variant string, n int, res *forcedResult
 	i := 20 + e.rng.Intn(n-40)
 	switch fam {
 	case "coldrace":
-		point := "With." + variant
-		op := e.mkWop(wopKinds[e.rng.Intn(3)], i, 5)
+		// variant: <yield point>            the batch inserts a point (a cache that is too new for the search
+		//                                   makes it fail, a stale one hides the point afterwards)
+		//          <yield point>/any        the batch deletes or moves a point
+		pt, sel, _ := strings.Cut(variant, "/")
+		point := "With." + pt
+		kind := "insert"
+		if sel == "any" {
+			kind = wopKinds[1+e.rng.Intn(2)]
+		}
+		op := e.mkWop(kind, i, 5)
 		qx, qy := op.X, op.Y
 		if op.Kind == "move" {
 			v := e.docs[op.Id][propVec].([]float32)
@@ -405,6 +419,50 @@ func (e *forcedEnv) runCacheFamily(fam, variant string, n int, res *forcedResult
 		defer ref.Close()
 		hist := fmt.Sprintf("search %s parked at %s, then %s as far as it could, then the search finished, then the batch", q, point, op)
 		res.Threads = append(res.Threads, e.quiescent("R2", "v1", append([]QSpec{q}, e.neighbourQueries(qx, op.X, float32(10*i))...), ref, hist))
+	case "wfailr":
+		// A reader that has looked the shared cache up, but not yet tried its lock, when the writer that
+		// holds it fails and gives it up. variant: kind of the failing writer | any.
+		k1 := variant
+		if k1 == "" || k1 == "any" {
+			k1 = wopKinds[e.rng.Intn(3)]
+		}
+		op1 := e.mkWop(k1, i, 5)
+		x1 := op1.X
+		if op1.Kind == "move" {
+			x1 = e.docs[op1.Id][propVec].([]float32)[0]
+		}
+		q := QSpec{Kind: "vamana", X: x1, Y: 0.25, K: 3}
+		if e.rng.Bool() {
+			q.Kind = "flat"
+		}
+		fault := "commit"
+		if op1.Kind != "move" && e.rng.Bool() {
+			e.hub.setFailPut(shard.INTERNALBUCKETNAME, string(shard.POINTCOUNTKEY), 1)
+			fault = "put internal/pointCount"
+		} else {
+			e.hub.failCommit.Store(1)
+		}
+		res.Extra["writer1"], res.Extra["fault"], res.Extra["query"] = op1.String(), fault, q.String()
+		spawnW("W1", op1)
+		c.adopt = c.byName["W1"]
+		must(c.RunUntil("W1", "W.ended", 1), "arrived")
+		c.adopt = nil
+		e.snapshot("v1") // nothing is committed by this family
+		e.searcher("S", q)
+		must(c.RunUntil("S", "With.rTryRLock", 1), "arrived")
+		s1 := c.RunUntil("W1", "", 0)
+		sS := c.RunUntil("S", "", 0)
+		if s1.Kind != "done" {
+			s1 = c.RunUntil("W1", "", 0)
+		}
+		if w1, listed := writerReport("W1", c.byName["W1"], s1, true); listed {
+			res.Threads = append(res.Threads, w1)
+		}
+		res.Threads = append(res.Threads, e.classify("S", q, "v0", []string{"v1"}, sS))
+		ref := e.reference("v0", nil)
+		defer ref.Close()
+		hist := fmt.Sprintf("%s (fault: %s) parked after its storage transaction ended; search %s looked the shared cache up; the writer gave the cache up; the search went on", op1, fault, q)
+		res.Threads = append(res.Threads, e.quiescent("R2", "v1", e.neighbourQueries(x1, op1.X, float32(10*i)), ref, hist))
 	case "wfailq", "wokq":
 		// variant: [mgr/]<kind of writer 1>+<kind of writer 2> | [mgr/]any. Writer 2 "insertV" / "insertF" inserts a
 		// point that has only the graph-indexed / only the flat-indexed vector, so that it is known WHICH shared
